@@ -558,11 +558,23 @@ inline void runC15(Ctx &c)
             }
             std::vector<double> ts{p.t0, p.t0 + 0.3 * p.T[0]};
             Observables o0 = observe(*src, u, ts, true);
-            // mutate or destroy the source
             if (r.coin())
+                (void)observe(*cp, u, ts, false); // the copy may or may not have been evaluated before the source changes
+            // mutate (and use) or destroy the source
+            if (r.coin(0.7))
             {
-                Problem q = genProblem(r, od.first, od.second, r.range(1, 9));
-                src->updateDur(q.T, q.P, q.t0, q.bc);
+                Problem q = genProblem(r, od.first, od.second, r.coin() ? p.N : r.range(1, 9));
+                if (r.coin())
+                    src->updateDur(q.T, q.P, q.t0, q.bc);
+                else
+                    src->updatePts(q.timePoints(), q.P, q.bc);
+                if (r.coin(0.8))
+                {
+                    std::vector<double> tq{q.t0, q.t0 + 0.3 * q.T[0]};
+                    (void)observe(*src, genUpstream(r, q, 0), tq, true); // the source rebuilds its caches first
+                }
+                if (r.coin(0.3))
+                    src.reset();
             }
             else
                 src.reset();
